@@ -404,6 +404,39 @@ def plan_scenarios(fx, exe, out_path, payloads=(0,)):
     return ex.records, crash
 
 
+def resume_scenarios(fx, exe, out_path):
+    """scripted resume situations: for every composite region R that is not the root and every region K nested in it,
+    activate a non-initial sub-state deep inside K, leave R, and come back with an external hook-free `resume R`
+    (and `resume K`): what isResumable named must be what gets activated (Trace!ResumeAgrees judges it).
+    Returns (records, crash or None)"""
+    fl = gen.Flat(fx["shape"])
+    cfg = gen.cfg_of(fx)
+    ex = Exec(exe, out_path)
+    start = ["new"] + (["enter"] if cfg["manual"] else [])
+    for r in range(2, fl.n + 1):
+        if fl.st(r)["kind"] != "C":
+            continue
+        inside = fl.subtree(r)
+        outside = [s for s in range(2, fl.n + 1) if s not in inside and r not in fl.subtree(s) and fl.st(s)["kind"] == "S"]
+        # a way out: a plain state that is neither inside R nor an ancestor of it, under a composite ancestor of R
+        outside = [s for s in outside if any(fl.st(a)["kind"] == "C" and fl.st(a)["kids"] and (s in fl.subtree(a)) for a in fl.ancestors(r))]
+        if not outside:
+            continue
+        deep = [s for s in inside if fl.st(s)["kind"] == "S" and fl.st(s)["prong"] > 1 and fl.st(s)["parent"] != r
+                and fl.st(fl.st(s)["parent"])["kind"] == "C"]
+        for d in deep[:4]:
+            k = fl.st(d)["parent"]
+            for back in (r, k):
+                seq = start + ["imm change %d 0" % d, "imm change %d 0" % outside[0], "imm resume %d 0" % back, "del"]
+                for c in seq:
+                    if ex.call(c) is None:
+                        crash = ex.dead
+                        ex.close()
+                        return ex.records, crash
+    ex.close()
+    return ex.records, None
+
+
 # ------------------------------------------------------------------------------------------
 # TLC trace validation
 
@@ -578,6 +611,11 @@ def replica_walk(fx, exe, out_path, seed, records, profile=None):
                 break
             prev = a["post"]["prev"]
             if a["a"][0] in ("update", "imm") and prev:
+                if rnd.random() < 0.12:
+                    # an over-long history (the authority's list, its last entry repeated beyond COMPO_COUNT * SUBSTITUTION_LIMIT entries):
+                    # what does not fit must be dropped, nothing may be written past previousTransitions
+                    cap = w.fl.cc * w.cfg["limit"]
+                    prev = prev + [prev[-1]] * max(0, min(60, cap + 1 + rnd.randint(0, 3)) - len(prev))      # (repeating the last one changes nothing)
                 flat = " ".join("%d %d %s %d" % (t[0], t[1], t[2], t[3]) for t in prev)
                 b = on_slot(1, rets, "replay 0 %d %s" % (len(prev), flat))
                 total += 1
